@@ -43,6 +43,13 @@ def cases(tier, seed):
         for L in (0, 16384):
             for P in (0, 128, 65536):
                 yield {'role': role, 'L': L, 'P': P, 'ml_first': False}
+    # an association object created with its own limit (public constructor argument), different from the entity-wide one
+    for L in (0, 7, 128, 16384, 65536):
+        for LA in (0, 64, 16384, 2 ** 32 - 1):
+            if LA != L:
+                for P in (0, 128, 65536):
+                    yield {'role': 'requestor', 'L': L, 'P': P, 'ml_first': True, 'ae_L': LA}
+                    yield {'role': 'acceptor', 'L': L, 'P': P, 'ml_first': True, 'ae_L': LA}
 
 
 def _ml_values(pdu_obj):
@@ -60,20 +67,20 @@ def run_case(case):
     role, L, P = case['role'], case['L'], case['P']
     viol = []
     sig = 'c10:%s' % role
-    where = 'role=%s local=%d peer=%d ml_first=%s' % (role, L, P, case['ml_first'])
+    where = 'role=%s local=%d%s peer=%d ml_first=%s' % (role, L, ' (entity-wide %d)' % case['ae_L'] if 'ae_L' in case else '', P, case['ml_first'])
     zl = 'L0' if L == 0 else 'L+'
     zp = 'P0' if P == 0 else 'P+'
     tag = '%s%s%s' % (zl, zp, '' if case['ml_first'] else ':ml-second')
     svc = assoc.Recorder('svc', [A])
     try:
         if role == 'acceptor':
-            ae = assoc.make_ae('SCP', [IMPL], L, [svc])
-            a = assoc.make_acceptor(ae)
+            ae = assoc.make_ae('SCP', [IMPL], case.get('ae_L', L), [svc])
+            a = assoc.make_acceptor(ae, L if 'ae_L' in case else None)
             rq = assoc.decode_pdu(assoc.rq_tree([(1, A, [IMPL])], max_len=P, ml_first=case['ml_first']))
             a.accept(rq)
             announce = [p for p in a.dul.sent if getattr(p, 'pdu_type', None) == 2]
         else:
-            ae = applicationentity.ClientAE('SCU', [IMPL], L).add_scu(svc)
+            ae = applicationentity.ClientAE('SCU', [IMPL], case.get('ae_L', L)).add_scu(svc)
             with stubs.patched_dul():
                 a = asceprovider.AssociationRequester(ae, L, {'aet': 'SCP', 'address': 'h', 'port': 104})
             subs_first = case['ml_first']
@@ -124,6 +131,6 @@ def run_case(case):
                          'message with %d data bytes: %d P-DATA PDUs produced, %d data bytes, command problems %r (%s; limit in force %r)'
                          % (n, len(pdus), len(data), ref_cmd.well_formed(cmd, 0x0001, True)[:1], where, lim)))
         keys.append((n < F, n == F, n > F))
-    return {'viol': viol, 'case': case if viol else None, 'key': (role, L, P, case['ml_first']),
+    return {'viol': viol, 'case': case if viol else None, 'key': (role, L, P, case['ml_first'], case.get('ae_L')),
             'count': {'sends': len(sizes)},
             'sample': dict(case, limit_in_force=lim, sizes=sizes) if (L, P) in ((16384, 128), (0, 0)) else None}
